@@ -3,6 +3,7 @@ package props
 // C19 — Open, Config.Build and std-log redirection are all-or-nothing; URLs validated.
 
 import (
+	"encoding/json"
 	"errors"
 	"fmt"
 	"io"
@@ -1054,5 +1055,39 @@ func TestRegressC19(t *testing.T) {
 	// F16: Kelvin sign must not register "kafka..."
 	if err := zap.RegisterSink("\u212axv"+fmt.Sprint(os.Getpid()), func(*url.URL) (zap.Sink, error) { return nil, nil }); err == nil {
 		t.Fatalf("RegisterSink accepted a non-ASCII scheme")
+	}
+}
+
+// The configurations zap hands out are the caller's: editing one in place (an element assignment, or decoding a
+// file over a preset, which reuses the backing arrays) changes neither the configuration's other path list nor
+// any other preset, earlier or later - a logger built from an untouched preset writes where that preset says.
+func TestRegressC19Presets(t *testing.T) {
+	presets := map[string]func() zap.Config{"NewProductionConfig": zap.NewProductionConfig, "NewDevelopmentConfig": zap.NewDevelopmentConfig}
+	for name, mk := range presets {
+		for _, other := range []string{"NewProductionConfig", "NewDevelopmentConfig"} {
+			held := presets[other]() // somebody else's configuration, obtained earlier
+			cfg := mk()
+			cfg.OutputPaths[0] = "/nonexistent-dir/edited.log"
+			if len(cfg.ErrorOutputPaths) != 1 || cfg.ErrorOutputPaths[0] != "stderr" {
+				t.Fatalf("%s: assigning OutputPaths[0] changed ErrorOutputPaths to %q", name, cfg.ErrorOutputPaths)
+			}
+			cfg2 := mk()
+			if err := json.Unmarshal([]byte(`{"outputPaths":["/nonexistent-dir/decoded.log"],"errorOutputPaths":["/nonexistent-dir/decoded.err"],"initialFields":{"a":1}}`), &cfg2); err != nil {
+				t.Fatalf("decoding over %s: %v", name, err)
+			}
+			for who, c := range map[string]zap.Config{"a configuration obtained earlier from " + other: held, "a fresh " + other: presets[other]()} {
+				if len(c.OutputPaths) != 1 || c.OutputPaths[0] != "stderr" || len(c.ErrorOutputPaths) != 1 || c.ErrorOutputPaths[0] != "stderr" {
+					t.Fatalf("editing one %s in place changed %s: OutputPaths %q ErrorOutputPaths %q", name, who, c.OutputPaths, c.ErrorOutputPaths)
+				}
+				if len(c.InitialFields) != 0 {
+					t.Fatalf("editing one %s in place changed %s: InitialFields %v", name, who, c.InitialFields)
+				}
+			}
+			// the encoder configuration is a value as well
+			cfg.EncoderConfig.MessageKey = "edited"
+			if k := mk().EncoderConfig.MessageKey; k == "edited" {
+				t.Fatalf("%s: presets share their EncoderConfig", name)
+			}
+		}
 	}
 }
